@@ -275,6 +275,19 @@ fn file_cases(args: &Args, rep: &mut Report) {
             }
         }
     }
+    // a seekable file >= 16 KiB whose mmap() fails (sysfs): the fallback must read from the start
+    match crate::hist::unmappable_file() {
+        Some((path, bytes)) => {
+            let (a, b, c) = three_way(path, &mode);
+            let want = specmodel::hash(&mode, bytes);
+            rep.eval(format!("special/unmappable/{}", bytes.len()));
+            rep.seen("unmappable_file", format!("{} ({} bytes)", path.display(), bytes.len()));
+            if a != Ok(want) || b != Ok(want) || c != Ok(want) {
+                rep.violation("C11/special/unmappable-file", format!("{} ({} bytes, seekable, mmap fails): mmap={:?} mmap_rayon={:?} reader={:?} want {}", path.display(), bytes.len(), a.map(|h| hex(&h)), b.map(|h| hex(&h)), c.map(|h| hex(&h)), hex(&want)), vec![]);
+            }
+        }
+        None => rep.inconclusive.push("no seekable-but-unmappable file found on this system; that fallback path was not exercised".into()),
+    }
     // directory: every entry point must report an error (never Ok, never a panic)
     let (a, b, c) = three_way(&dir, &mode);
     rep.eval("special/directory");
